@@ -1429,36 +1429,44 @@ type c17Probe struct {
 	otherMs int64
 }
 
-func (g *c17Gen) probe() c17Probe {
+func (g *c17Gen) probe(kind int) c17Probe {
 	r := g.r
 	size := 3 + r.Intn(3)
 	_, ms := randomGame(r, tak.Config{Size: size}, 2+r.Intn(4), -1, false)
+	if kind == 1 && len(ms)%2 == 0 { // kinds 0 and 1 are the same probe for White and for Black to move
+		ms = ms[:len(ms)-1]
+	}
+	if kind == 0 && len(ms)%2 == 1 {
+		ms = ms[:len(ms)-1]
+	}
 	words := []string{"position", "startpos", "moves"}
 	for _, m := range ms {
 		words = append(words, c17FormatMove(m, 0))
 	}
 	white := len(ms)%2 == 0
-	// own clock: 500 ms -> budget 100 ms ; other clock: 2500 ms -> 500 ms
-	own, other := "500", "2500"
 	var args []string
-	want, oth := int64(100), int64(500)
-	switch r.Intn(4) {
-	case 0:
-	case 3: // the side to move has the larger clock: obeying the other one would expire early
-		own, other = "2500", "500"
-		want, oth = 500, 100
-	case 1: // the increment of the side to move counts
-		want = 150
-		if white {
-			args = []string{"winc", "50", "binc", "400"}
-		} else {
-			args = []string{"binc", "50", "winc", "400"}
-		}
-		oth = 900
-	case 2: // movetime caps it
-		args = []string{"movetime", "60"}
-		want, oth = 60, 60
+	own, other := "500", "5000" // budgets 100 ms / 1000 ms
+	want, oth := int64(100), int64(1000)
+	switch kind {
+	case 2: // the side to move has the larger clock: obeying the other one would expire early
+		own, other = "5000", "500"
+		want, oth = 1000, 100
+	case 3: // the increment of the side to move counts, not the other one
 		own, other = "2500", "2500"
+		want, oth = 550, 2499
+		if white {
+			args = []string{"winc", "50", "binc", "2000"}
+		} else {
+			args = []string{"binc", "50", "winc", "2000"}
+		}
+	case 4: // movetime caps the clock budget
+		args = []string{"movetime", "60"}
+		own, other = "5000", "5000"
+		want, oth = 60, 1000
+	case 5: // ... but does not extend it
+		args = []string{"movetime", "3000"}
+		own, other = "500", "500"
+		want, oth = 100, 3000
 	}
 	if white {
 		args = append(args, "wtime", own, "btime", other)
@@ -1543,7 +1551,7 @@ func c17Probes(c *ctx, bin string, n int) {
 	g := &c17Gen{r: c.r}
 	probes := make([]c17Probe, n)
 	for i := range probes {
-		probes[i] = g.probe()
+		probes[i] = g.probe(i % 6)
 	}
 	const tol = 5 // ms: the first evaluation starts a little after the context was made
 	pending := make([]int, n)
@@ -1551,10 +1559,10 @@ func c17Probes(c *ctx, bin string, n int) {
 		pending[i] = i
 	}
 	lastObs := make([]string, n)
-	for attempt := 0; attempt < 3 && len(pending) > 0; attempt++ {
+	for attempt := 0; attempt < 4 && len(pending) > 0; attempt++ {
 		var reqs []string
 		for _, i := range pending {
-			reqs = append(reqs, fmt.Sprintf("T %d %d %s", i, 1500, hex.EncodeToString([]byte(probes[i].text))))
+			reqs = append(reqs, fmt.Sprintf("T %d %d %s", i, 2600, hex.EncodeToString([]byte(probes[i].text))))
 		}
 		resp := c17Drive(bin, "probe-"+c.tier, reqs)
 		var again []int
@@ -1569,7 +1577,7 @@ func c17Probes(c *ctx, bin string, n int) {
 			}
 			ms := ns / 1000000
 			early := ns >= 0 && ms < p.wantMs-tol
-			late := ns < 0 || ms >= p.wantMs+200
+			late := ns < 0 || ms >= p.wantMs+400
 			if early {
 				// never a scheduling artefact
 				c.printf("ORACLE-FAIL clock-wiring | T %s | the searcher's context expired after %d ms | the budget of the side to move: %d ms\n",
@@ -1586,7 +1594,7 @@ func c17Probes(c *ctx, bin string, n int) {
 	}
 	for _, i := range pending {
 		p := probes[i]
-		c.printf("ORACLE-FAIL clock-wiring | T %s | three attempts, last observation %q (ns until the searcher's context expired; -1 = not within 1500 ms) | the budget of the side to move: %d ms (the other side's clock would give %d ms)\n",
+		c.printf("ORACLE-FAIL clock-wiring | T %s | four attempts, last observation %q (ns until the searcher's context expired; -1 = not within 2600 ms) | the budget of the side to move: %d ms (the other side's clock would give %d ms)\n",
 			hex.EncodeToString([]byte(p.text)), lastObs[i], p.wantMs, p.otherMs)
 	}
 	c.stat("clock_probes", int64(n))
@@ -1667,9 +1675,9 @@ func runC17(c *ctx) {
 		return
 	}
 	g := &c17Gen{r: c.r}
-	n := 1500
+	n := 1000
 	if c.tier == "thorough" {
-		n = 40000
+		n = 30000
 	}
 	scripts := make([]*c17Script, 0, n+100)
 	// fixed scripts: the repaired crashes and the hand-made histories of the property text
